@@ -32,7 +32,7 @@ from vlib.loader import LoaderError, MASK64, Process, decode_a64_site, sext
 
 PROP = "C01"
 META = {
-    "ready": False,
+    "ready": True,
     "level": "model_checking",
     "technique": "TLA+ decision table (psABI rule vs transcription of wild's relocation phases) checked exhaustively by TLC; every enumerated case replayed into the real linker, observed through an independent loader model whose observations are judged by the spec's own formula operator, and executed natively",
     "level_text": "All 4516 applicable single-site cases (16 symbol kinds x 25 x86-64 reference kinds x 5 output kinds x writability x relax x pack-relative-relocs) and a pruned two-sites-per-symbol product are enumerated by TLC; declarative psABI classification and the operational transcription of wild agree on all of them up to named deviations. Every sampled (quick) or every (thorough) case is linked by the real wild; the semantic value of the site after loading at two base sets is compared by TLC with the psABI formula on marker-derived addresses, and the program is executed natively under ASLR.",
